@@ -1,0 +1,78 @@
+//go:build verif
+
+package server
+
+import (
+	"sort"
+
+	"github.com/resgateio/resgate/server/rescache"
+)
+
+// Read-only introspection for the external verification harness. The harness calls these only
+// while every worker is parked at a verifhook gate.
+
+// VerifSubSnap describes one subscription of a connection.
+type VerifSubSnap struct {
+	RID            string
+	State          int // 0 disposed, 1 loading, 2 loaded, 3 ready, 4 toSend, 5 sent, 6 deleted
+	Direct         int
+	Indirect       int
+	IndirectSent   int
+	Version        uint
+	QueueFlag      uint8
+	Flags          uint8
+	EventQueue     int
+	ReadyCallbacks int
+	AccessCBs      int
+	HasAccess      bool
+	HasErr         bool
+	HasResourceSub bool
+	Refs           map[string]int
+}
+
+// VerifConnSnap describes one connection.
+type VerifConnSnap struct {
+	CID       string
+	Token     string
+	TID       string
+	Protocol  int
+	Disposing bool
+	QueueLen  int
+	Subs      []VerifSubSnap
+}
+
+// VerifCache returns the service's cache.
+func (s *Service) VerifCache() *rescache.Cache { return s.cache }
+
+// VerifSnapshot returns a snapshot of all connections, sorted by connection id.
+func (s *Service) VerifSnapshot() []VerifConnSnap {
+	s.mu.Lock()
+	conns := make([]*wsConn, 0, len(s.conns))
+	for _, c := range s.conns {
+		conns = append(conns, c)
+	}
+	s.mu.Unlock()
+	var out []VerifConnSnap
+	for _, c := range conns {
+		c.mu.Lock()
+		cs := VerifConnSnap{CID: c.cid, Token: string(c.token), TID: c.tid, Protocol: c.protocolVer, Disposing: c.disposing, QueueLen: len(c.queue)}
+		c.mu.Unlock()
+		for _, sub := range c.subs {
+			ss := VerifSubSnap{RID: sub.rid, State: int(sub.state), Direct: sub.direct, Indirect: sub.indirect, IndirectSent: sub.indirectsent,
+				Version: sub.version, QueueFlag: sub.queueFlag, Flags: sub.flags, EventQueue: len(sub.eventQueue),
+				ReadyCallbacks: len(sub.readyCallbacks), AccessCBs: len(sub.accessCallbacks), HasAccess: sub.access != nil,
+				HasErr: sub.err != nil, HasResourceSub: sub.resourceSub != nil}
+			if sub.refs != nil {
+				ss.Refs = make(map[string]int, len(sub.refs))
+				for rid, ref := range sub.refs {
+					ss.Refs[rid] = ref.count
+				}
+			}
+			cs.Subs = append(cs.Subs, ss)
+		}
+		sort.Slice(cs.Subs, func(i, j int) bool { return cs.Subs[i].RID < cs.Subs[j].RID })
+		out = append(out, cs)
+	}
+	sort.Slice(out, func(i, j int) bool { return out[i].CID < out[j].CID })
+	return out
+}
